@@ -175,15 +175,17 @@ theorem single_byte_demands : ∀ e ∈ Gen.sbPreds, ∀ c : UInt8,
     · exact h3
 
 /-- every registered encoding name resolves to a validator; the names `is_utf8` recognises are
-exactly those mapped to the UTF-8 validator; a name of the ISO-8859 family (and `latin1`)
-resolves to a predicate that additionally rejects every C1 byte `0x80–0x9F`. -/
+exactly those mapped to the UTF-8 validator; a name resolves to a predicate meeting
+`Spec.nameDemands`: printable ASCII accepted, C0 (except tab/LF/CR) and DEL rejected, for the
+ISO-8859 family (and `latin1`) additionally every C1 byte `0x80–0x9F` rejected, for `ascii` /
+`us-ascii` every byte ≥ 0x80 rejected. -/
 theorem registered_names : ∀ e ∈ Gen.nameTable,
     match getTester e.1 with
     | none => False
     | some .utf8 => isUtf8 e.1 = true
     | some (.single i) =>
       i < Gen.sbPreds.length ∧ isUtf8 e.1 = false ∧
-      ∀ c : UInt8, byteDemands (isoFamily (normalize e.1)) (sbPred i) c.toNat = true := by
+      ∀ c : UInt8, nameDemands (normalize e.1) (sbPred i) c.toNat = true := by
   intro e he
   have h := nameTableOk_ok
   unfold nameTableOk at h
